@@ -84,14 +84,12 @@ uint32_t x___pthread_key_create(P a, P b) { return 0; }
 #include "strings.inc"
 
 /* ---- harness interface */
-#define VF_TRACE_MAX 256
-uint64_t __vf_trace[VF_TRACE_MAX]; int __vf_ntrace;
 #ifdef __CPROVER__
 uint64_t nondet_u64(void); uint32_t nondet_u32(void); uint8_t nondet_u8(void);
-static uint64_t rec(uint64_t v) { if (__vf_ntrace >= VF_TRACE_MAX) VF_FAIL("nondet trace overflow"); __vf_trace[__vf_ntrace++] = v; return v; }
-uint64_t x_verif_nondet_ulong(void) { return rec(nondet_u64()); }
-uint32_t x_verif_nondet_uint(void) { return (uint32_t)rec(nondet_u32()); }
-uint8_t x_verif_nondet_uchar(void) { return (uint8_t)rec(nondet_u8()); }
+/* replay reads these return values back from the counterexample trace, in state order */
+uint64_t x_verif_nondet_ulong(void) { uint64_t v = nondet_u64(); return v; }
+uint32_t x_verif_nondet_uint(void) { uint32_t v = nondet_u32(); return v; }
+uint8_t x_verif_nondet_uchar(void) { uint8_t v = nondet_u8(); return v; }
 void x_verif_assume(uint32_t c) { __CPROVER_assume(c != 0); }
 #else
 static uint64_t *replay_vals; static int replay_n, replay_pos;
